@@ -106,7 +106,7 @@ fn hook(what: &'static str) {
             CV.notify_all();
             return;
         }
-        let (ng, to) = CV.wait_timeout(g, Duration::from_secs(5)).unwrap();
+        let (ng, to) = CV.wait_timeout(g, Duration::from_secs(30)).unwrap();
         g = ng;
         if to.timed_out() {
             g.as_mut().unwrap().diverged = true;
